@@ -153,6 +153,8 @@ def run(ctx):
     fl = ctx.fa('cooler.fileops.list_scool_cells')
     ref = analyze_source(ctx.repo, 'cooler.fileops', REF_LIST_CELLS)
     compare(ctx, 'C17.list_scool_cells', fl, None, ref_fa=ref, why='the listing names exactly the cells (coolers of the file except the root)')
+    compare(ctx, 'C17.list_scool_cells._check', ctx.fa('cooler.fileops.list_scool_cells.<locals>._check_cooler'), None,
+            ref_fa=ref.nested_analyses['_check_cooler'], why='exactly the groups recognised as coolers are listed, with a leading slash')
     magic(ctx)
 
 
